@@ -2,9 +2,14 @@
 
 Decided:
   R26.1  `record_data_can_have_compression` is *evaluated* (concrete interpretation of its AST) for every RR type
-         number of net/dns/types.py plus unassigned / private-use numbers: it may answer True only for types whose
-         RDATA is defined to contain a domain name (RFC 1035 s.3.3, RFC 3597 s.4 and the later name-bearing types).
-         => any other type (TXT, HINFO, A, AAAA, unknown ...) gets opaque bytes rewritten.           (F-C26, repaired)
+         number of net/dns/types.py plus unassigned / private-use numbers: it may answer True only for the types whose
+         RDATA may carry *compressed* names on the wire - the closed set of RFC 3597 s.4: the RFC 1035 well-known types
+         with a <domain-name> plus RP AFSDB RT SIG PX NXT NAPTR SRV (table MAY_BE_COMPRESSED below, with the sources).
+         => any other type gets opaque bytes rewritten: TXT, HINFO, A, AAAA, unknown ... (F-C26, repaired), and also the
+         later types that embed a name which MUST NOT be compressed (KX, DNAME, RRSIG, NSEC, ...), where the byte scan
+         can only hit signature / bitmap octets (judged this strictly while the expansion routine is not given the record
+         type, see R26.4; a layout-aware routine may be asked about any name-bearing type).  It must answer True for the RFC 1035 well-known types and SRV
+         (MUST_BE_EXPANDED) => otherwise compressed names are forwarded with dangling pointers.
   R26.2  symbolic path analysis of `DNSMessage.unpack_from.unpack_rrs` (offsets as linear terms): on every path that
          appends a record, RDATA is `buffer[o:o+len]` (o = right after the RR header, len = header's length field) when the
          predicate is False for *this record's* type, and the decompression routine applied to exactly that window when
@@ -18,12 +23,26 @@ Decided:
          RDATA starts with a name (CNAME/NS/PTR) and for one that starts with / contains integer fields (MX, SRV, SOA ...),
          the rewriting routine must depend on the record type - a type-agnostic byte scan cannot tell the pointer
          `C0 0C` of a CNAME from the SRV port 49164.
-NOT decided: value-level codec round trip (C25), idna, what addons do to a message.
+  R26.5  finite evaluation of the expansion routine itself: `decompress_from_record_data` and everything it calls
+         (`unpack_from_with_compression`, `_unpack_label_into`, `pack`) are *interpreted from their ASTs* (pyint; `struct`
+         and the idna codec are the trusted base) on small, realistic response messages - one per distinct RDATA layout of
+         the types the predicate answers True for (name; name name; name name u32*5; u16 name; u16 name name; u16*3 name;
+         NAPTR; SIG; NXT), x numeric field values (zero / typical small values such as MX preference 10, SRV priority 10
+         weight 5, SOA timers / values with a different small octet in every position), x name forms (pointer to the question
+         name; labels + pointer into an earlier record's RDATA, itself ending in a pointer; uncompressed; punycode label +
+         pointer; for SOA also: pointer to an internationalised owner name / to the root name followed by a second compressed
+         name - F-C26c, repaired, findings/F-C26c/repro.py), with an empty name cache and with the cache the message parser has filled at that point.  The result must be
+         the RDATA with every name replaced by its uncompressed wire form and every other octet unchanged (computed here by
+         an independent reference walk over the layout).  => otherwise a compressed name is forwarded with a dangling /
+         retargeted pointer or numeric fields are damaged: the receiver reads a different record.
+         Octets >= 0xC0 outside names are NOT sampled: that is the type-agnostic-scan defect reported by R26.4 (F-C26b).
+NOT decided: value-level codec round trip for all messages (C25), idna, what addons do to a message.
 """
 
 from __future__ import annotations
 
 import ast
+import struct
 
 from ..core import AnalysisError
 from ..core import norm
@@ -35,6 +54,8 @@ from ..paths import is_const
 from ..paths import State
 from ..paths import traces_of
 from ..paths import UNKNOWN
+from ..pyint import Interp
+from ..pyint import Raised as IRaised
 from ..selftest import Mutant
 from ._helpers_D import attr_of
 from ._helpers_D import call_args
@@ -53,12 +74,15 @@ from ._helpers_D import unhook
 PROP = "C26"
 REG = {
     "strength": "partial",
-    "technique": "finite evaluation of the compression predicate over all RR types; symbolic (linear-offset) path analysis of the record "
+    "technique": "finite evaluation of the compression predicate over all RR types; interpretation (pyint) of the RDATA expansion routine on sample "
+    "records of every RDATA layout in the table against an independent reference expansion; symbolic (linear-offset) path analysis of the record "
     "parser; provenance of the bytes sent by DNSLayer; information-flow necessity for per-type RDATA layouts",
-    "claim": "only name-bearing RR types are ever rewritten; for all other types RDATA is the exact wire slice; the layer repacks the very "
+    "claim": "only RR types whose RDATA may carry compressed names (RFC 3597 s.4) are ever rewritten and the RFC 1035 types + SRV always are; on the sampled "
+    "records the expansion routine expands exactly the names (pointer chains, IDN / root targets, numeric fields in front) and changes nothing else; for all other types RDATA is the exact wire slice; the layer repacks the very "
     "message object it unpacked; framing prefix formats agree; packed() emits rr.data verbatim. Reports (known finding F-C26b) that the "
     "RDATA rewriting routine is type-agnostic although the table mixes name-first and integer-first layouts.",
-    "note": "Reference set of name-bearing types is part of the rule (IANA numbers). struct / idna are trusted library behaviour.",
+    "note": "Reference set = RR types whose RDATA may carry compressed names per RFC 3597 section 4 (RFC 1035 well-known types + RP AFSDB RT SIG PX NXT "
+    "NAPTR SRV), part of the rule (IANA numbers). struct / idna are trusted library behaviour.",
 }
 
 DN = "mitmproxy/net/dns/domain_names.py"
@@ -66,12 +90,33 @@ TYPES = "mitmproxy/net/dns/types.py"
 DNS = "mitmproxy/dns.py"
 LAYER = "mitmproxy/proxy/layers/dns.py"
 
-# RR types whose RDATA is *defined* to contain at least one domain name (IANA number -> mnemonic).
+# Mnemonics of the RR types that carry a domain name somewhere in their RDATA (IANA number -> mnemonic; used for messages
+# and for the layout classes of R26.4 only - NOT the reference set of R26.1).
 NAME_BEARING = {
     2: "NS", 3: "MD", 4: "MF", 5: "CNAME", 6: "SOA", 7: "MB", 8: "MG", 9: "MR", 12: "PTR", 14: "MINFO", 15: "MX", 17: "RP", 18: "AFSDB",
     21: "RT", 23: "NSAP-PTR", 24: "SIG", 26: "PX", 30: "NXT", 33: "SRV", 35: "NAPTR", 36: "KX", 38: "A6", 39: "DNAME", 45: "IPSECKEY", 46: "RRSIG",
     47: "NSEC", 55: "HIP", 58: "TALINK", 64: "SVCB", 65: "HTTPS", 107: "LP", 249: "TKEY", 250: "TSIG", 260: "AMTRELAY",
 }
+# Reference table of R26.1.  Source: RFC 3597 section 4 ("Domain Name Compression"), which closes the set for good:
+#   * "only the RR types defined in [RFC1035] are to be considered well-known" - senders may compress names in their RDATA,
+#     receivers MUST decompress them.  Of the RFC 1035 section 3.3 types those with a <domain-name> in the RDATA are
+#     NS MD MF CNAME SOA MB MG MR PTR MINFO MX                                                     -> WELL_KNOWN_1035
+#   * receivers "SHOULD also decompress RRs of type RP, AFSDB, RT, SIG, PX, NXT, NAPTR, and SRV" (older specifications
+#     allowed / RFC 2052 mandated compression there)                                                -> LEGACY_3597
+#   * every other type, existing or future, "MUST NOT allow the use of name compression"; the defining RFCs repeat it for
+#     the types that do embed a name: KX (RFC 2230 s.3), DNAME (RFC 2672 s.3 / RFC 6672 s.2.5), RRSIG and NSEC (RFC 4034
+#     s.3.1.7, s.4.1.1: "A sender MUST NOT use DNS name compression on the Signer's Name / Next Domain Name field"),
+#     A6, IPSECKEY, HIP, SVCB/HTTPS (RFC 9460 s.2.2), TSIG/TKEY ...
+# A conforming sender therefore never puts a compression pointer into the RDATA of a type outside MAY_BE_COMPRESSED:
+# nothing there needs expanding, and because the expansion routine is a byte scan (F-C26b) answering True for such a
+# type can only rewrite opaque octets (signatures, type bitmaps, keys) that happen to look like `C0 xx`.
+WELL_KNOWN_1035 = {2: "NS", 3: "MD", 4: "MF", 5: "CNAME", 6: "SOA", 7: "MB", 8: "MG", 9: "MR", 12: "PTR", 14: "MINFO", 15: "MX"}
+LEGACY_3597 = {17: "RP", 18: "AFSDB", 21: "RT", 24: "SIG", 26: "PX", 30: "NXT", 35: "NAPTR", 33: "SRV"}
+MAY_BE_COMPRESSED = {**WELL_KNOWN_1035, **LEGACY_3597}
+# Types the predicate MUST answer True for (else compressed names in their RDATA are forwarded with dangling pointers, because
+# re-packing moves every offset): the RFC 1035 well-known types (receivers MUST decompress) plus SRV, which the property names
+# explicitly and which deployed (RFC 2052-style, mDNS) senders do compress.
+MUST_BE_EXPANDED = {**WELL_KNOWN_1035, 33: "SRV"}
 # layouts that begin with a domain name and nothing else before it
 NAME_FIRST = {2, 3, 4, 5, 7, 8, 9, 12, 39}
 # layouts with integer / opaque fields somewhere in the RDATA (so some offsets must NOT be read as names)
@@ -149,7 +194,7 @@ def contains(v, needle) -> bool:
     return False
 
 
-def check_r261(ctx):
+def check_r261(ctx, type_aware=False):
     m = ctx.model
     fn = ctx.func(DN, "record_data_can_have_compression")
     resolve = module_resolver(m, DN)
@@ -169,13 +214,31 @@ def check_r261(ctx):
             raise AnalysisError(f"record_data_can_have_compression({num}) evaluates to non-bool {r!r}")
         if r:
             true_types.add(num)
+            if num in NAME_BEARING:
+                why = (f"RDATA of {numbers[num]} embeds a domain name, but RFC 3597 s.4 (and the RFC defining {numbers[num]}) forbids compressing it, so no sender puts a pointer "
+                       "there; the type-agnostic byte scan can only hit the opaque octets around the name (signature, type bitmap, key, preference) that look like "
+                       "`C0 xx` and replace them by an expanded name: the record is not forwarded byte-for-byte")
+            else:
+                why = (f"RDATA of {numbers[num]} is opaque (no domain name defined in it): bytes that look like a compression pointer (0xC0..) are rewritten when the "
+                       "message is forwarded")
+            # a rewriting routine that is told the record type can confine itself to the name field(s) of the layout: there a
+            # (forbidden, hence absent) pointer is never found and the opaque octets are not looked at - harmless
+            allowed = MAY_BE_COMPRESSED if not type_aware else NAME_BEARING
             ctx.check(
-                num in NAME_BEARING, "R26.1", (DN, "record_data_can_have_compression", fn),
-                f"record type {numbers[num]} ({num}) is treated as containing compressible names",
-                f"RDATA of {numbers[num]} is opaque (no domain name defined in it): bytes that look like a compression pointer (0xC0..) are rewritten when the message is forwarded",
-                desc=f"{numbers[num]}({num}) -> True, name-bearing",
+                num in allowed, "R26.1", (DN, "record_data_can_have_compression", fn),
+                f"record type {numbers[num]} ({num}) is treated as containing compressible names", why,
+                desc=f"{numbers[num]}({num}) -> True, RDATA may carry compressed names (RFC 3597 s.4)",
             )
     ctx.require(true_types, "record_data_can_have_compression is False for every type: name-bearing records would keep dangling pointers")
+    for num, name in sorted(MUST_BE_EXPANDED.items()):
+        ctx.require(num in numbers, f"{TYPES}: RR type {name} ({num}) is not defined any more")
+        ctx.check(
+            num in true_types, "R26.1", (DN, "record_data_can_have_compression", fn),
+            f"record type {name} ({num}) is not treated as containing compressible names",
+            f"senders do compress the names in {name} RDATA (RFC 1035 s.4.1.4 / RFC 3597 s.4: receivers MUST decompress them); kept as a raw slice the pointer is forwarded "
+            "unexpanded while re-packing moves every offset, so the receiver reads a different name",
+            desc=f"{name}({num}) -> True as required",
+        )
     ctx.note(f"R26.1 evaluated the predicate for {len(numbers)} type numbers; True for {sorted(true_types)}")
     return true_types
 
@@ -289,6 +352,191 @@ def check_r264(ctx, true_types, rewriters):
             "SRV port (49152..65535), SOA counters are read as compression pointers and replaced (repro: findings/F-C26b/repro.py)",
             desc=f"{callee} receives the record type",
         )
+
+
+# ---------------------------------------------------------------------------------------------------
+# R26.5  the expansion routine evaluated on representative messages
+
+# distinct RDATA layouts of the RFC 3597 s.4 types (RFC 1035 s.3.3, RFC 1183, RFC 2163, RFC 2782, RFC 2915, RFC 2535)
+LAYOUTS = {
+    "name (NS/CNAME/PTR/MB/MD/MF/MG/MR)": ("name",),
+    "name name (MINFO/RP)": ("name", "name"),
+    "SOA: mname rname serial refresh retry expire minimum": ("name", "name", "u32", "u32", "u32", "u32", "u32"),
+    "u16 name (MX/AFSDB/RT)": ("u16", "name"),
+    "PX: preference map822 mapx400": ("u16", "name", "name"),
+    "SRV: priority weight port target": ("u16", "u16", "u16", "name"),
+    "NAPTR: order preference flags services regexp replacement": ("u16", "u16", "str", "str", "str", "name"),
+    "SIG: covered alg labels ttl expiration inception keytag signer signature": ("u16", "u8", "u8", "u32", "u32", "u32", "u16", "name", "opaque"),
+    "NXT: next bitmap": ("name", "opaque"),
+}
+LAYOUT_TYPES = {
+    "name (NS/CNAME/PTR/MB/MD/MF/MG/MR)": {2, 3, 4, 5, 7, 8, 9, 12}, "name name (MINFO/RP)": {14, 17},
+    "SOA: mname rname serial refresh retry expire minimum": {6}, "u16 name (MX/AFSDB/RT)": {15, 18, 21}, "PX: preference map822 mapx400": {26},
+    "SRV: priority weight port target": {33}, "NAPTR: order preference flags services regexp replacement": {35},
+    "SIG: covered alg labels ttl expiration inception keytag signer signature": {24}, "NXT: next bitmap": {30},
+}
+# numeric vectors: every octet < 0xC0 (octets that look like pointers are F-C26b's business), i = index of the field in the layout
+VECTORS = {
+    "zero": {"u8": lambda i: 0, "u16": lambda i: 0, "u32": lambda i: 0, "str": lambda i: b"", "opaque": lambda i: b"\x00\x00\x00\x00"},
+    "typical": {"u8": lambda i: 5, "u16": lambda i: (10, 5, 5222, 20, 1, 100)[i % 6], "u32": lambda i: (3600, 1209600, 300, 2021030405, 7200)[i % 5],
+                "str": lambda i: (b"E2U+sip", b"!^.*$!sip:info@example.com!", b"U")[i % 3], "opaque": lambda i: bytes(range(1, 41))},
+    "mixed": {"u8": lambda i: 0x11 + i, "u16": lambda i: ((i + 1) << 8) | (2 * i + 3), "u32": lambda i: ((i + 2) << 24) | (0x3F << 16) | ((i + 1) << 8) | (i + 9),
+              "str": lambda i: bytes([i + 1, 0x20 + i]), "opaque": lambda i: bytes([7, 0, 3, 0x40, 0x7F, 0xBF, 1, 2, 0x3F, 0x0C])},
+}
+QNAME_AT = 12
+
+
+def _wire(labels):
+    return b"".join(bytes([len(x)]) + x for x in labels) + b"\x00"
+
+
+def _ref_name(buf, off, depth=0):
+    """reference decoder: (labels, wire length at ``off``)"""
+    labels, start = [], off
+    while True:
+        n = buf[off]
+        if n & 0xC0 == 0xC0:
+            if depth > 20:
+                raise AnalysisError("R26.5: reference decoder met a pointer loop in its own sample")
+            tgt = ((n & 0x3F) << 8) | buf[off + 1]
+            return labels + _ref_name(buf, tgt, depth + 1)[0], off + 2 - start
+        if n == 0:
+            return labels, off + 1 - start
+        labels.append(bytes(buf[off + 1 : off + 1 + n]))
+        off += 1 + n
+
+
+def _sample_message(layout, vector, forms):
+    """-> (message bytes, rdata offset, rdata end, expected expanded RDATA, offsets of the names the parser has seen before)"""
+    q = _wire([b"example", b"com"])
+    msg = bytearray(b"\x12\x34\x81\x80\x00\x01\x00\x02\x00\x00\x00\x00") + q + b"\x00\x0f\x00\x01"
+    com_at = QNAME_AT + 8
+    # answer 1: MX 5 alt1.gmail-smtp-in.l.google.<ptr com>
+    owner1 = len(msg)
+    first = b"\x00\x05" + b"\x04alt1" + b"\x0dgmail-smtp-in" + b"\x01l" + b"\x06google" + bytes([0xC0, com_at])
+    msg += b"\x0dxn--bcher-kva" + bytes([0xC0, QNAME_AT]) + struct.pack("!HHIH", 15, 1, 300, len(first))  # owner: an internationalised name
+    rdata1 = len(msg)
+    msg += first
+    suffix_at = rdata1 + 2 + 5  # gmail-smtp-in.l.google.com
+    # answer 2: the record under test
+    owner2 = len(msg)
+    name_forms = {
+        "ptr-question": bytes([0xC0, QNAME_AT]),
+        "labels+ptr-into-rdata": b"\x04alt2" + bytes([0xC0, suffix_at]),
+        "uncompressed": _wire([b"ns", b"example", b"org"]),
+        "punycode+ptr": b"\x0dxn--bcher-kva" + bytes([0xC0, QNAME_AT]),
+        "labels+ptr-question": b"\x04mail" + bytes([0xC0, QNAME_AT]),
+        "ptr-idn-name": bytes([0xC0, owner1]),
+        "ptr-root": bytes([0xC0, QNAME_AT + len(q) - 1]),
+    }
+    fields, k = [], 0
+    for i, kind in enumerate(layout):
+        if kind == "name":
+            fields.append(("name", name_forms[forms[k % len(forms)]]))
+            k += 1
+        elif kind == "str":
+            v = vector["str"](i)
+            fields.append(("raw", bytes([len(v)]) + v))
+        elif kind == "opaque":
+            fields.append(("raw", vector["opaque"](i)))
+        else:
+            fields.append(("raw", struct.pack({"u8": "!B", "u16": "!H", "u32": "!I"}[kind], vector[kind](i))))
+    rdata = b"".join(v for _, v in fields)
+    if any(b >= 0xC0 for kind, v in fields if kind == "raw" for b in v):
+        raise AnalysisError("R26.5: a sampled non-name field contains an octet >= 0xC0 (that class belongs to R26.4 / F-C26b)")
+    msg += bytes([0xC0, QNAME_AT]) + struct.pack("!HHIH", 15, 1, 300, len(rdata))
+    off = len(msg)
+    msg += rdata
+    if suffix_at >= 0xC0 or owner1 >= 0xC0:
+        raise AnalysisError("R26.5: sample message grew so far that a pointer's second octet looks like a pointer itself")
+    expected, at = b"", off
+    for kind, v in fields:
+        expected += _wire(_ref_name(msg, at)[0]) if kind == "name" else v
+        at += len(v)
+    return bytes(msg), off, off + len(rdata), expected, (QNAME_AT, owner1, owner2)
+
+
+class _ByteInterp(Interp):
+    """pyint + item / slice assignment on a bytearray (the only extra construct the DNS name routines need)"""
+
+    def assign(self, target, value, env, mod, depth):
+        if isinstance(target, ast.Subscript):
+            base = self.ev(target.value, env, mod, depth)
+            if isinstance(base, bytearray):
+                key = self.ev(target.slice, env, mod, depth)
+                try:
+                    base[key] = value
+                except (IndexError, TypeError, ValueError) as e:
+                    raise IRaised(type(e).__name__)
+                return
+        Interp.assign(self, target, value, env, mod, depth)
+
+
+def check_r265(ctx, true_types, rewriters):
+    m = ctx.model
+    callee = "decompress_from_record_data"
+    if rewriters:
+        names = {raw[1].rsplit(".", 1)[-1] for raw, _ in rewriters if raw[1].startswith("domain_names.")}
+        if len(names) == 1:
+            callee = names.pop()
+    if not m.has(DN, callee):
+        if any(f.rule in ("R26.2", "R26.4") for f in ctx.findings):
+            ctx.instance("R26.5", "not evaluated: the RDATA expansion routine named by unpack_rrs does not exist (reported by R26.2 / R26.4)")
+            return
+        raise AnalysisError(f"R26.5: expansion routine {callee} not found in {DN}")
+    fn = ctx.func(DN, callee)
+    ctx.func(DN, "unpack_from_with_compression")
+    params = [a.arg for a in fn.args.args]
+    if len(params) != 4 or fn.args.kwonlyargs or fn.args.vararg:
+        raise AnalysisError(f"R26.5 models an expansion routine called as (buffer, start, end, name cache); {callee}{tuple(params)} is something else "
+                            "(a layout-aware routine needs a new rule)")
+    where = (DN, callee, fn)
+    thorough = ctx.tier == "thorough"
+    form_sets = [("ptr-question", "labels+ptr-into-rdata"), ("labels+ptr-into-rdata", "ptr-question"), ("uncompressed", "labels+ptr-question"), ("punycode+ptr", "labels+ptr-into-rdata")]
+    # a pointer to an internationalised name followed by a second pointer: sampled in the SOA layout (zone = IDN), names 1 and 2
+    idn_forms = ("ptr-idn-name", "labels+ptr-question")
+    root_forms = ("ptr-root", "labels+ptr-question")
+    n = 0
+    for lname, layout in LAYOUTS.items():
+        if not (LAYOUT_TYPES[lname] & true_types):
+            continue
+        reported = set()
+        numeric = any(k != "name" for k in layout)
+        for vname, vector in VECTORS.items():
+            if not thorough and (vname == "zero" or (vname == "mixed" and not numeric)):
+                continue
+            for forms in form_sets + ([idn_forms, root_forms] if lname.startswith("SOA") and vname == "typical" else []):
+                buf, lo, hi, expected, seen = _sample_message(layout, vector, forms)
+                for warm in (False, True):
+                    if warm and not thorough and forms is not form_sets[0]:
+                        continue
+                    it = _ByteInterp(m, trusted_modules={"struct": struct}, max_steps=60000)
+                    cache: dict = {}
+                    try:
+                        if warm:
+                            for o in seen:
+                                it.call(DN, "unpack_from_with_compression", buf, o, cache)
+                        got = it.call(DN, callee, buf, lo, hi, cache)
+                    except IRaised as e:
+                        got = f"raises {e.name}"
+                    n += 1
+                    ctx.cells += 1
+                    ok = isinstance(got, (bytes, bytearray)) and bytes(got) == expected
+                    group = "idn" if forms is idn_forms else "root" if forms is root_forms else "plain"
+                    if ok or group in reported:
+                        continue
+                    reported.add(group)
+                    nforms = [f for f, k in zip(forms * 2, [k for k in layout if k == "name"])]
+                    shown = got.hex(" ") if isinstance(got, (bytes, bytearray)) else got
+                    ctx.fail("R26.5", where, f"{callee} on {lname.split(':')[0].split(' (')[0]} RDATA, {vname} numeric fields, names {'/'.join(nforms)}",
+                             f"RDATA {buf[lo:hi].hex(' ')} (message offset {lo}, {'warm' if warm else 'empty'} name cache) is rewritten to {shown}; every name expanded and everything else "
+                             f"unchanged is {expected.hex(' ')}: the record is forwarded with a different meaning",
+                             message=buf.hex(), window=[lo, hi], got=shown, expected=expected.hex())
+        if not reported:
+            ctx.instance("R26.5", f"{lname}: all samples expand exactly the names")
+    ctx.note(f"R26.5 interpreted {callee} on {n} sample records")
+    if not any(f.rule == "R26.1" for f in ctx.findings):  # a table that lost its types is R26.1's verdict
+        ctx.require(n >= 20, f"R26.5 evaluated only {n} samples")
 
 
 # ---------------------------------------------------------------------------------------------------
@@ -413,13 +661,16 @@ def check(ctx):
     ctx.rule("R26.1", "compression predicate True only for RR types whose RDATA is defined to contain domain names (finite evaluation)")
     ctx.rule("R26.2", "unpack_rrs: raw wire slice <=> predicate(type) False; rewriting on exactly that window <=> True; offsets consistent")
     ctx.rule("R26.3", "DNSLayer repacks the unpacked message object; framing formats agree; packed() emits rr.data verbatim")
+    ctx.rule("R26.5", "the RDATA expansion routine, interpreted on representative records of every layout in the table, expands exactly the names and leaves every other octet alone")
     ctx.rule("R26.4", "RDATA name expansion must depend on the record type when the table mixes name-first and integer-first layouts")
     ctx.trust("struct pack/unpack, bytes.decode('idna')")
-    true_types = check_r261(ctx)
     rewriters = check_r262(ctx)
+    type_aware = bool(rewriters) and all(contains(raw[2], type_v) for raw, type_v in rewriters)
+    true_types = check_r261(ctx, type_aware)
     check_r263(ctx)
     check_r264(ctx, true_types, rewriters)
-    for rule, n in (("R26.1", 19), ("R26.2", 8), ("R26.3", 10), ("R26.4", 1)):
+    check_r265(ctx, true_types, rewriters)
+    for rule, n in (("R26.1", 19 + 12), ("R26.2", 8), ("R26.3", 10), ("R26.4", 1), ("R26.5", 9)):
         if not any(f.rule == rule for f in ctx.findings):  # a violated rule has its verdict; counts guard against vacuous passes
             ctx.expect_instances(rule, n)
 
@@ -429,6 +680,12 @@ MUTANTS = [
     Mutant("txt-compressible-again", DN, "        types.SOA,\n", "        types.SOA,\n        types.TXT,\n", "R26.1"),
     Mutant("hinfo-compressible-again", DN, "        types.CNAME,\n", "        types.CNAME,\n        types.HINFO,\n", "R26.1"),
     Mutant("unknown-types-compressible", DN, "        return True\n    return False\n", "        return True\n    return record_type >= 256\n", "R26.1"),
+    # seed C26a and its class: later types that embed a name which MUST NOT be compressed (RFC 3597 s.4) / table rows lost
+    Mutant("rrsig-nsec-scanned-for-pointers", DN, "        types.SRV,\n    ):", "        types.SRV,\n        types.RRSIG,\n        types.NSEC,\n    ):", "R26.1"),
+    Mutant("dname-kx-scanned-for-pointers", DN, "        types.SRV,\n    ):", "        types.SRV,\n        types.KX,\n        types.DNAME,\n    ):", "R26.1"),
+    Mutant("https-svcb-scanned-for-pointers", DN, "        return True\n    return False\n", "        return True\n    return record_type in (types.HTTPS, types.SVCB)\n", "R26.1"),
+    Mutant("mx-no-longer-expanded", DN, "        types.MX,\n", "", "R26.1"),
+    Mutant("srv-no-longer-expanded", DN, "        types.SRV,\n", "", "R26.1"),
     Mutant("table-negated", DN, "    if record_type in (\n        types.CNAME,", "    if record_type not in (\n        types.CNAME,", "R26.1"),
     # R26.2
     Mutant("rdata-always-rewritten", DNS, "                    if domain_names.record_data_can_have_compression(type):\n", "                    if True:\n", "R26.2"),
@@ -448,6 +705,12 @@ MUTANTS = [
     Mutant("length-prefix-counts-itself", LAYER, 'return struct.pack("!H", len(packed)) + packed', 'return struct.pack("!H", len(packed) + 2) + packed', "R26.3"),
     Mutant("packed-truncates-rdata", DNS, "            data.extend(rr.data)\n", "            data.extend(rr.data[:255])\n", "R26.3"),
     Mutant("packed-sections-swapped", DNS, "for rr in (*self.answers, *self.authorities, *self.additionals):", "for rr in (*self.authorities, *self.answers, *self.additionals):", "R26.3"),
+    # R26.5 (first = reverse of the F-C26c repair, second = seed C26b)
+    Mutant("F-C26c-reverted", DN, "                decompress_size += len(packed_name) - rr_name_len\n", "                decompress_size += len(rr_name)\n", "R26.5"),
+    Mutant("scan-jumps-over-label-lengths", DN, "                pass\n        data_offset += 1\n    return bytes(data)",
+           "                pass\n        elif buffer[offset + data_offset] < 64:\n            data_offset += buffer[offset + data_offset]\n        data_offset += 1\n    return bytes(data)", "R26.5"),
+    Mutant("scan-stops-two-octets-early", DN, "    while data_offset < end_data - offset:\n", "    while data_offset < end_data - offset - 2:\n", "R26.5"),
+    Mutant("splice-keeps-second-pointer-octet", DN, "                    + rr_name_len\n                ] = packed_name\n", "                    + 1\n                ] = packed_name\n", "R26.5"),
     # R26.4 (fires on the unrepaired tree with a known key; the mutant models a renamed / rewritten routine that still is type-agnostic)
     Mutant("renamed-scan-still-type-agnostic", DNS, "data = domain_names.decompress_from_record_data(\n", "data = domain_names.expand_pointers_in_record_data(\n", "R26.4"),
 ]
